@@ -195,7 +195,9 @@ def _gate_classify(e):
 def r1_2(ctx):
     p = ctx.p
     n_h = 0
-    for m in ("do_fetch", "do_store", "do_search"):
+    # FETCH / STORE / SEARCH may not be sent an EXPUNGE at all; COPY / MOVE may, but their message numbers mean what they
+    # meant when the client sent the command - interpreting them after queued EXPUNGEs were applied addresses other messages
+    for m in ("do_fetch", "do_store", "do_search", "do_copy", "do_move"):
         fi = p.func(f"client.Authenticated.{m}")
         g = ctx.cfg(fi)
         n_h += 1
@@ -226,8 +228,9 @@ def r1_2(ctx):
         # ... and again after the wait: while the command is queued behind another session's EXPUNGE / MOVE / CLOSE, that
         # command's EXPUNGE lines are queued for this session and the message list shrinks.  What was tested before the wait
         # says nothing about the moment the operation starts.
-        ops = {n.id for n in g.nodes if n.ast is not None and n.kind in ("stmt", "iter", "with_enter") and any(call_name(c) in ("fetch", "store", "search") and norm(call_recv(c)) == "self.mbox" for c in calls_in(n.ast))}
-        ctx.require(ops, f"{m}: the mailbox operation (self.mbox.fetch/store/search) not found")
+        ops = {n.id for n in g.nodes if n.ast is not None and n.kind in ("stmt", "iter", "with_enter") and any(call_name(c) in ("fetch", "store", "search", "copy") and norm(call_recv(c)) == "self.mbox" for c in calls_in(n.ast))}
+        ctx.require(ops, f"{m}: the mailbox operation (self.mbox.fetch/store/search/copy) not found")
+        adm = {a for a in adm if any(o in flow.reach(g, [a], flow.NORMAL) for o in ops)}  # MOVE's second admission (removal by UID) comes after the operation
         late = None
         for a in sorted(adm):
             late = late or flow.feasible_paths_exist(
@@ -247,14 +250,36 @@ def r1_2(ctx):
             )
         else:
             ctx.ok("R1.2", where(fi), "after the admission wait a non-UID command re-tests `pending_expunges()` before it touches the mailbox")
+        # the UID forms may be sent EXPUNGEs - and must be, before their results are numbered: `* n FETCH (UID u)` names
+        # position n of the list as it is now, which is the session's view only once the queued EXPUNGEs have gone out
+        late_uid = None
+        for a in (sorted(adm) if m in ("do_fetch", "do_store") else []):  # the handlers whose results carry positions
+            late_uid = late_uid or flow.feasible_paths_exist(
+                g, a, ops, _gate_classify, labels=flow.NORMAL, avoid=lambda x: x in flush,
+                accept=lambda n, f: f.get("pe") is not False and f.get("uid") is not False,
+            )
+            ctx.paths_explored += 1
+        if late_uid:
+            path, facts = late_uid
+            ctx.bad(
+                "R1.2", fi.module, fi.qual, f"{m}: UID form runs with EXPUNGEs still queued after the admission wait",
+                "a UID command that was queued behind another session's EXPUNGE numbers its results (`* n FETCH (UID u ...)`) "
+                "against the shrunken list while the `* k EXPUNGE` is still queued for the session: position n of the session's "
+                "view is another message. The queued lines must be flushed after the wait, before the operation",
+                g.nodes[path[-1]].line, flow.fmt_path(g, path),
+            )
+        elif m in ("do_fetch", "do_store"):
+            ctx.ok("R1.2", where(fi), "after the admission wait the UID form flushes what was queued (or nothing is queued) before it numbers its results")
         # the refusal arm must raise No (tagged NO) or say BYE, not fall through
         # idling never raised in these handlers
         raised = [n for n in body_walk(fi.node) if isinstance(n, ast.Assign) and any(norm(t) == "self.idling" for t in n.targets) and not (isinstance(n.value, ast.Constant) and n.value.value is False)]
-        if raised:
+        if m in ("do_copy", "do_move"):
+            pass  # MOVE announces its own removals (R1.5 / R1.5b decide how)
+        elif raised:
             ctx.bad("R1.2", fi.module, fi.qual, norm(raised[0]), "idling raised inside a FETCH/STORE/SEARCH handler: EXPUNGEs would be pushed during the command", raised[0].lineno)
         else:
             ctx.ok("R1.2", where(fi), "self.idling is not raised inside the handler", nontrivial=False)
-    ctx.floor("R1.2", n_h, 3, "gated handlers")
+    ctx.floor("R1.2", n_h, 5, "gated handlers")
     # pending_expunges(): any("EXPUNGE" in x ...) over self.pending_notifications
     pe = p.func("client.BaseClientHandler.pending_expunges")
     ctx.analysed(pe)
@@ -678,6 +703,42 @@ def r1_8(ctx):
                 ctx.ok("R1.8", where(fi), f"fan-out iterates a copy: {norm(lp.iter, 60)}")
 
 
+def r1_9(ctx):
+    """A push to *another* session (an idling listener) fails when that session's connection has gone away
+    (ConnectionResetError / BrokenPipeError from drain()).  That is that session's end, not the announcing command's: if the
+    error escapes the fan-out, the command that was announcing an EXPUNGE dies between two list updates (the reverse indexes
+    are not rebuilt, the flag sets keep the removed key), the sessions later in the table never get the line, and - because
+    command() takes a ConnectionResetError for the issuer's own connection - the issuer gets no tagged reply at all.  So every
+    direct push to another session in mbox.py sits in a `try` whose handler for OSError / ConnectionError does not re-raise."""
+    p = ctx.p
+    n = 0
+    for fi in p.funcs_in("mbox"):
+        par = None
+        for c in [x for x in calls_in(fi.node) if is_push_call(x)]:
+            r = call_recv(c)
+            if not (isinstance(r, ast.Attribute) and r.attr == "client" and _auth_receiver(p, fi, r.value)):
+                continue
+            n += 1
+            ctx.analysed(fi)
+            par = par or parmap(fi)
+            cur, caught = c, False
+            while cur in par and not caught:
+                pr = par[cur]
+                if isinstance(pr, ast.Try) and cur in pr.body:
+                    for h in pr.handlers:
+                        names = {norm(t).split(".")[-1] for t in (h.type.elts if isinstance(h.type, ast.Tuple) else [h.type])} if h.type else {"BaseException"}
+                        if names & {"OSError", "ConnectionError", "Exception", "BaseException"} and not any(isinstance(x, ast.Raise) for st in h.body for x in ast.walk(st)):
+                            caught = True
+                if isinstance(pr, (ast.FunctionDef, ast.AsyncFunctionDef)):
+                    break
+                cur = pr
+            if caught:
+                ctx.ok("R1.9", where(fi), f"push to another session @{c.lineno} cannot fail the announcing command (connection errors handled in place)")
+            else:
+                ctx.bad("R1.9", fi.module, fi.qual, norm(c, 80), "a direct push to another session (an idling listener) is not shielded: when that session's connection has died the ConnectionResetError escapes into the command that was announcing - an EXPUNGE stops half way (indexes and flag sets not updated), the other sessions never get the line, and the issuer gets no tagged reply", c.lineno)
+    ctx.floor("R1.9", n, 2, "direct pushes to other sessions in mbox.py")
+
+
 def r1_6(ctx):
     """SELECT / EXAMINE give the session a fresh view (EXISTS from the current state).  Whatever was queued for the old view
     must be dropped before that, unconditionally - also when the same mailbox is selected again: a queued EXPUNGE replayed onto
@@ -769,6 +830,7 @@ def run(ctx):
     ctx.do(r1_6b)
     ctx.do(r1_7)
     ctx.do(r1_8)
+    ctx.do(r1_9)
     from . import c02
     ctx.do(c02.r2_6)
     # shared necessary conditions decided by sibling modules (reported under this property too)
